@@ -209,6 +209,81 @@ def run(ctx):
         ctx.count(f"pattern:{oc}")
         if oc == "ok":
             ctx.disagree("refuse:malformed-rdm-pattern", f"rdm('{pat}') was answered", {"pattern": pat})
+    # ---- operator indices at and beyond the orbital range, sparse (<= 2 terms) and dense (> 2 terms) routes ----
+    import fqe as _fqe_mod
+    for nb_ in (2, 3):
+        for top in (2 * nb_ - 2, 2 * nb_ - 1, 2 * nb_, 2 * nb_ + 1, 2 * nb_ + 2, 2 * nb_ + 3):
+            for nterm in (2, 4, 6):
+                lows = [top % 2 + 2 * k for k in range(nb_) if top % 2 + 2 * k != top][: nterm // 2]
+                if len(lows) < nterm // 2:
+                    continue
+                op = FermionOperator()
+                if nterm >= 4:
+                    op += FermionOperator(((lows[0], 1), (lows[0], 0)), 0.7)
+                for lo in lows:
+                    op += FermionOperator(((top, 1), (lo, 0)), 1.0) + FermionOperator(((lo, 1), (top, 0)), 1.0)
+                if nterm >= 4:
+                    op += FermionOperator(((top, 1), (top, 0)), 0.7)
+                idxs = sorted({m for t in op.terms for m, _ in t})
+                model = d.ask(f"admit_opidx {nb_} {len(idxs)} {' '.join(map(str, idxs))}")
+                for api in ("apply", "time_evolve", "fqe.apply", "expectationValue"):
+                    w = fqe.Wavefunction([[nb_, nb_ % 2, nb_]])
+                    U.random_fill(w, rng, zero_p=0.0)
+                    before = wsnap(w)
+                    if api == "apply":
+                        oc, _ = outcome(lambda: w.apply(op))
+                    elif api == "time_evolve":
+                        oc, _ = outcome(lambda: w.time_evolve(0.1, op))
+                    elif api == "fqe.apply":
+                        oc, _ = outcome(lambda: fqe.apply(op, w))
+                    else:
+                        oc, _ = outcome(lambda: w.expectationValue(fqe.build_hamiltonian(op, norb=nb_, conserve_number=True)))
+                    desc = {"api": api, "norb": nb_, "top_index": top, "terms": len(op.terms),
+                            "op": [[[list(f) for f in t], c.real] for t, c in op.terms.items()]}
+                    ctx.case(("opindex", api, nb_, top, nterm))
+                    ctx.count(f"opindex:{'in-range' if model == 'ok' else 'beyond'}:{oc}")
+                    if model != "ok" and oc == "ok":
+                        ctx.disagree(f"refuse:operator-index-beyond-norb:{api}",
+                                     f"{api} with an operator on mode {top} (norb {nb_}, {len(op.terms)} terms) was answered", desc)
+                    if model == "ok" and oc != "ok":
+                        ctx.disagree(f"refuse:operator-index-in-range-refused:{api}",
+                                     f"{api} with an operator on mode {top} (norb {nb_}) was refused: {oc}", desc)
+                    if wsnap(w) != before:
+                        ctx.disagree(f"refuse:operand-changed:{api}", f"operand changed ({oc})", desc)
+    # ---- RDM / Wick patterns: every malformed pattern (repeated label in any position and dagger state, odd number
+    #      of tokens, token of another shape) is refused; decision model = Model/Guards.lean admitPattern --------------
+    def toks_of(pat):
+        out = []
+        for tk in pat.split():
+            shaped = len(tk) == 1 or (len(tk) == 2 and tk[1] == "^")
+            out.append((ord(tk[0]), int(len(tk) == 2 and tk[1] == "^"), int(shaped)))
+        return out
+    pats = []
+    for L in (1, 2, 3, 4):
+        for labs in itertools.product("ijk", repeat=L):
+            for dags in itertools.product((0, 1), repeat=L):
+                pats.append(" ".join(l + ("^" if dg else "") for l, dg in zip(labs, dags)))
+    pats += ["i^^ j", "ij^ k", "i^ j^ k l m^ m", "i j k^ l^ i^ m", "i^ j^ k^ l^ m n o i"]
+    if quick:
+        rng.shuffle(pats)
+        keep = ["i i^", "i j i^ k^", "i j i^ j^", "i j^ i^ k", "i^ i"]
+        pats = keep + pats[:160]
+    wsf = fqe.Wavefunction([[2, 0, 2]])
+    U.random_fill(wsf, rng, zero_p=0.0)
+    wsb = fqe.get_number_conserving_wavefunction(2, 2)
+    U.random_fill(wsb, rng, zero_p=0.0)
+    for pat in pats:
+        tk = toks_of(pat)
+        for sf, wv in ((1, wsf), (0, wsb)):
+            model = d.ask(f"admit_pattern {sf} {len(tk)} " + " ".join(f"{a} {b} {c}" for a, b, c in tk))
+            for api in ("rdm", "expectationValue"):
+                oc, _ = outcome((lambda: wv.rdm(pat)) if api == "rdm" else (lambda: wv.expectationValue(pat)))
+                ctx.case(("pattern", pat, sf, api))
+                ctx.count(f"pattern:{'model-refuses' if model != 'ok' else 'model-admits'}:{'ok' if oc == 'ok' else 'refused'}")
+                if model != "ok" and oc == "ok":
+                    ctx.disagree(f"refuse:malformed-rdm-pattern:{api}", f"{api}('{pat}') was answered on a "
+                                 f"{'spin-conserving' if sf else 'spin-broken'} wavefunction (model: {model})",
+                                 {"pattern": pat, "spinfree": sf, "api": api})
     # ---- hostile values in a child interpreter ---------------------------------------------------------
     here = os.path.dirname(os.path.dirname(os.path.abspath(__file__)))
     logf = os.path.join(os.environ.get("TMPDIR", "/tmp"), f"fqeverif-c14-{os.getpid()}.log")
